@@ -224,6 +224,8 @@ class C05(Check):
         self._ref_bad = []
         self._raw_n = 0
         self._raw_bad = []
+        self._iso_n = 0
+        self._iso_bad = []
         self._stream = {}
         self._seen_dom = set()
         self.stats = {"input_distribution": {}}
@@ -297,7 +299,11 @@ class C05(Check):
         self._flags[case] = (bool(wf), bool(c20), bool(c22))
         # S computed from the raw characters (Spec/C05f.v) must agree with S on physical lines
         # (a theorem for newline-terminated texts; checked here for every text)
-        rl, rwf, r20, r22, rnl = ans[3]
+        rl, rwf, r20, r22, rnl, il, iwf = ans[3]
+        # the literal ISO look-ahead reading (Spec/C05i.v): wf always equal, logical lines unless the text ends in a splice
+        self._iso_n += 1
+        if iwf != wf or (not case.endswith("\\\n") and il != logical):
+            self._iso_bad.append(case)
         self._raw_n += 1
         if [rl, rwf, r20, r22] != [logical, wf, c20, c22] and (rnl or case == ""):
             self._raw_bad.append(case)
@@ -394,6 +400,10 @@ class C05(Check):
         if self._raw_bad:
             problems.append(f"S on raw text and S on physical lines disagree on {len(self._raw_bad)} of {self._raw_n} "
                             f"cases, first: {self._raw_bad[0]!r}")
+        if self._iso_bad:
+            problems.append(f"ISO look-ahead spec and pending-state spec disagree on {len(self._iso_bad)} of {self._iso_n} "
+                            f"cases, first: {self._iso_bad[0]!r}")
+        self.stats["spec_iso_vs_scanner"] = {"cases": self._iso_n, "disagreements": len(self._iso_bad)}
         self.stats["spec_raw_vs_lines"] = {"cases": self._raw_n, "disagreements": len(self._raw_bad)}
         g = self.gcc_oracle(300 if self.tier == "quick" else 4000)
         self.stats["spec_oracle_gcc"] = {k: (v if k != "disagreements" else len(v)) for k, v in g.items()}
